@@ -102,6 +102,7 @@ def _mk_builtin_excs():
     mk('RuntimeError', 'Exception')
     mk('NotImplementedError', 'RuntimeError')
     mk('RecursionError', 'RuntimeError')
+    mk('MemoryError', 'Exception')
     mk('StopIteration', 'Exception')
     mk('TypeError', 'Exception')
     mk('ValueError', 'Exception')
